@@ -90,11 +90,17 @@ func runC04(r *Run) {
 	r.floor("R04.13", 45)
 	ruleForwardSetters(r, "R04.13")
 	// R04.12: with out-of-order completion two writes to one register leave the YOUNGER one
-	r.floor("R04.12", 4)
+	r.floor("R04.12", 9)
 	conform(r, "R04.12", "risc", "Context", "TransactionRATWrite", "risc_state", nil)
 	conform(r, "R04.12", "risc", "Context", "commitRAT", "risc_state", nil)
 	conform(r, "R04.12", "risc", "Context", "isSuperseded", "risc_state", nil)
 	conform(r, "R04.12", "proc/comp", "RAT", "WriteSorted", "risc_state", nil)
+	// the last writer of a register across a misprediction (transaction table of MVP-6.2, rename table)
+	conform(r, "R04.12", "risc", "Context", "TransactionWriteRegister", "risc_state", nil)
+	conform(r, "R04.12", "risc", "Context", "Rollback", "risc_state", nil)
+	conform(r, "R04.12", "risc", "Context", "Commit", "risc_state", nil)
+	conform(r, "R04.12", "risc", "Context", "RATRollback", "risc_state", nil)
+	conform(r, "R04.12", "risc", "Context", "RATCommit", "risc_state", nil)
 	for _, m := range []string{"Find", "Read", "Write"} {
 		conform(r, "R04.5", "proc/comp", "RAT", m, "risc_state", nil)
 	}
